@@ -20,8 +20,9 @@ Definition mu (st : rstate) (pipe : bytes) : nat :=
 Definition flag_ok (st : rstate) : Prop :=
   r_flag st = false -> first_record (eff_maclen P c) (r_buf st) = None \/ (encr c = true /\ r_iv st = false).
 
+(* "read buffer exceeded": bytes are waiting, the buffer has no room, and nothing buffered can be parsed *)
 Definition stuck (st : rstate) (pipe : bytes) : Prop :=
-  pipe <> [] /\ Z.to_nat (buf_in_size - blen (r_buf st)) = O.
+  pipe <> [] /\ Z.to_nat (buf_in_size - blen (r_buf st)) = O /\ r_flag st = false /\ flag_ok st.
 
 Lemma firstn_nil_cases {A} n (l : list A) : firstn n l = [] -> n = O \/ l = [].
 Proof. destruct n, l; cbn; auto; discriminate. Qed.
@@ -37,7 +38,7 @@ Proof.
   destruct (firstn room pipe) as [|g0 gr] eqn:G.
   - left. injection H as <- <-. rewrite (firstn_nil_skipn _ _ G). split; [reflexivity|]. split; [reflexivity|].
     destruct (firstn_nil_cases _ _ G) as [R|R]; [|now left].
-    destruct pipe as [|p0 pr]; [now left|]. right. split; [discriminate|exact R].
+    destruct pipe as [|p0 pr]; [now left|]. right. split; [discriminate|]. split; [exact R|]. split; [exact F|exact FO].
   - right. set (got := g0 :: gr) in *.
     assert (LG : (1 <= length got)%nat) by (cbn; lia).
     destruct (encr c) eqn:E.
